@@ -342,3 +342,109 @@ def timeline_available(rep: Rep, now: Fraction) -> list[tuple[int, int]]:
         if end <= now:
             out.append((t, d))
     return out
+
+
+# ---------------------------------------------------------------- structural rule set (ISO/IEC 23009-1)
+
+DURATION_ATTRS = {"mediaPresentationDuration", "minimumUpdatePeriod", "minBufferTime", "timeShiftBufferDepth",
+                  "suggestedPresentationDelay", "maxSegmentDuration", "maxSubsegmentDuration"}
+PERIOD_DURATION_ATTRS = {"start", "duration"}
+DATETIME_ATTRS = {"availabilityStartTime", "availabilityEndTime", "publishTime"}
+UNSIGNED = {
+    "SegmentTemplate": {"timescale", "duration", "startNumber", "presentationTimeOffset"},
+    "SegmentList": {"timescale", "duration", "startNumber", "presentationTimeOffset"},
+    "SegmentBase": {"timescale", "presentationTimeOffset"},
+    "S": {"t", "d"},
+    "Representation": {"bandwidth", "width", "height"},
+    "AdaptationSet": {"id", "group", "maxWidth", "maxHeight", "minWidth", "minHeight", "maxBandwidth", "minBandwidth"},
+    "ContentComponent": {"id"},
+    "EventStream": {"timescale"},
+    "InbandEventStream": {"timescale"},
+    "Event": {"presentationTime", "duration", "id"},
+}
+UINT = re.compile(r"^\d+$")
+TEMPLATE_ID = re.compile(r"^\$(?:RepresentationID|(?:Number|Time|Bandwidth)(?:%0\d+d)?)?\$$")
+
+
+def check_rules(root) -> list[tuple[str, str]]:
+    """Violations of the structural MPD rules clients depend on: [(signature, detail)]."""
+    out = []
+    typ = root.get("type", "static")
+    for req in ("profiles", "minBufferTime"):
+        if root.get(req) is None:
+            out.append((f"mpd-required-attribute-missing/{req}", f"MPD@{req}"))
+    if typ == "dynamic":
+        for req in ("availabilityStartTime", "publishTime"):
+            if root.get(req) is None:
+                out.append((f"mpd-required-attribute-missing/{req}", f"MPD@type=dynamic without @{req}"))
+    else:
+        periods = root.findall(Q + "Period")
+        if root.get("mediaPresentationDuration") is None and not (periods and periods[-1].get("duration") is not None):
+            out.append(("mpd-required-attribute-missing/mediaPresentationDuration",
+                        "static MPD with neither @mediaPresentationDuration nor a duration on the last Period"))
+    for el in root.iter():
+        if not isinstance(el.tag, str) or not el.tag.startswith(Q):
+            continue
+        name = el.tag[len(Q):]
+        for a, v in el.attrib.items():
+            if a.startswith("{"):
+                continue
+            is_dur = a in DURATION_ATTRS or (name == "Period" and a in PERIOD_DURATION_ATTRS)
+            if is_dur:
+                try:
+                    val, _ = parse_duration(v)
+                    if val < 0:
+                        out.append((f"negative-duration/{name}@{a}", v))
+                except MpdError:
+                    out.append((f"invalid-xs-duration/{name}@{a}", repr(v)))
+            elif a in DATETIME_ATTRS and name == "MPD":
+                try:
+                    parse_datetime(v)
+                except MpdError:
+                    out.append((f"invalid-xs-dateTime/{name}@{a}", repr(v)))
+            elif a in UNSIGNED.get(name, ()):
+                if not UINT.match(v):
+                    out.append((f"invalid-unsigned-integer/{name}@{a}", repr(v)))
+            elif a == "startWithSAP":
+                if v not in {"0", "1", "2", "3", "4", "5", "6"}:
+                    out.append((f"invalid-SAPType/{name}@startWithSAP", repr(v)))
+            elif name == "S" and a == "r":
+                if not re.match(r"^-?\d+$", v) or int(v) < -1:
+                    out.append(("invalid-S@r", repr(v)))
+            if name in ("SegmentTemplate",) and a in ("media", "initialization", "index", "bitstreamSwitching"):
+                for tok in template_identifiers(v.split("?")[0]) + template_identifiers("?".join(v.split("?")[1:])):
+                    if not TEMPLATE_ID.match(tok):
+                        out.append((f"invalid-template-identifier/{a}", f"{tok!r} in {v!r}"))
+    # id uniqueness
+    pids = [p.get("id") for p in root.findall(Q + "Period") if p.get("id") is not None]
+    if len(pids) != len(set(pids)):
+        out.append(("duplicate-id/Period", str(pids)))
+    for p in root.findall(Q + "Period"):
+        aids = [a.get("id") for a in p.findall(Q + "AdaptationSet") if a.get("id") is not None]
+        if len(aids) != len(set(aids)):
+            out.append(("duplicate-id/AdaptationSet", f"Period {p.get('id')}: {aids}"))
+        rids = [r.get("id") for a in p.findall(Q + "AdaptationSet") for r in a.findall(Q + "Representation")]
+        if len(rids) != len(set(rids)):
+            out.append(("duplicate-id/Representation", f"Period {p.get('id')}: {rids}"))
+        for a in p.findall(Q + "AdaptationSet"):
+            if not a.findall(Q + "Representation"):
+                out.append((f"empty-AdaptationSet/{a.get('contentType') or a.get('mimeType')}", f"Period {p.get('id')} AdaptationSet {a.get('id')}"))
+    if not root.findall(Q + "Period"):
+        out.append(("no-Period", ""))
+    return out
+
+
+def shape(root) -> dict:
+    """multiset of (element path, sorted attribute names)"""
+    from collections import Counter
+    c = Counter()
+
+    def walk(el, path):
+        if not isinstance(el.tag, str):
+            return
+        p = path + "/" + el.tag
+        c[(p, tuple(sorted(el.attrib.keys())))] += 1
+        for ch in el:
+            walk(ch, p)
+    walk(root, "")
+    return c
